@@ -122,7 +122,7 @@ func xmlTokens(b []byte) ([]string, *xnode, error) {
 				if len(stack) != 1 {
 					return nil, nil, fmt.Errorf("unclosed element")
 				}
-				return out, root, nil
+				return leafExact(out), root, nil
 			}
 			return nil, nil, err
 		}
@@ -146,10 +146,7 @@ func xmlTokens(b []byte) ([]string, *xnode, error) {
 			stack = stack[:len(stack)-1]
 			out = append(out, "E:"+rawName(x.Name))
 		case xml.CharData:
-			s := strings.TrimSpace(string(x))
-			if s != "" {
-				out = append(out, "T:"+s)
-			}
+			out = append(out, "T:"+string(x)) // raw; normalised by leafExact below
 		case xml.Comment:
 			out = append(out, "C:"+string(x))
 		case xml.ProcInst:
@@ -158,6 +155,27 @@ func xmlTokens(b []byte) ([]string, *xnode, error) {
 			out = append(out, "D:"+string(x))
 		}
 	}
+}
+
+// leafExact normalises character data: the non-blank content of an element WITHOUT child elements
+// is kept byte for byte (white space added to a value is not inter-element white space); everywhere
+// else it is trimmed, and dropped when it is white space only.
+func leafExact(toks []string) []string {
+	out := toks[:0:0]
+	for i, t := range toks {
+		if !strings.HasPrefix(t, "T:") {
+			out = append(out, t)
+			continue
+		}
+		if i > 0 && i+1 < len(toks) && strings.HasPrefix(toks[i-1], "S:") && strings.HasPrefix(toks[i+1], "E:") && strings.TrimSpace(t[2:]) != "" {
+			out = append(out, "X:"+t[2:])
+			continue
+		}
+		if s := strings.TrimSpace(t[2:]); s != "" {
+			out = append(out, "T:"+s)
+		}
+	}
+	return out
 }
 
 func rawName(n xml.Name) string {
@@ -441,6 +459,13 @@ func runC16(c *Ctx) *Violation {
 	if v := d4(c, isSeq, m, ms, prefix, indent, outs); v != nil {
 		return v
 	}
+	// D1 again after the value has been modified in place: encoding is a function of the CONTENT,
+	// so the modified value must encode exactly like a freshly built equal value
+	if !isSeq {
+		if v := reencodeAfterUpdate(c, m, prefix, indent); v != nil {
+			return v
+		}
+	}
 	if c.C["map_orders_imposed"] > 0 {
 		c.Distinct("nontrivial", HashStr(Canon(pickRecv(isSeq, m, ms))).Int(K).Int(int(pols[len(pols)-1].Seed)))
 	}
@@ -450,6 +475,73 @@ func runC16(c *Ctx) *Violation {
 			pn[i] = p.String()
 		}
 		c.sample = map[string]interface{}{"value": clip(Canon(pickRecv(isSeq, m, ms)), 240), "entry_points": len(entries), "iteration_policies": pn, "indent": fmt.Sprintf("%q/%q", prefix, indent)}
+	}
+	return nil
+}
+
+// reencodeAfterUpdate: the Map (already encoded several times above) is changed in place - one key of
+// its widest nested map is replaced by another key with the same value, one value is overwritten -
+// and encoded again; a deep copy of the changed Map (other addresses, same content) is the reference.
+func reencodeAfterUpdate(c *Ctx, m mxj.Map, prefix, indent string) *Violation {
+	var widest map[string]interface{}
+	var walk func(v interface{})
+	walk = func(v interface{}) {
+		switch x := v.(type) {
+		case map[string]interface{}:
+			if len(x) > len(widest) {
+				widest = x
+			}
+			ks := make([]string, 0, len(x))
+			for k := range x {
+				ks = append(ks, k)
+			}
+			sort.Strings(ks)
+			for _, k := range ks {
+				walk(x[k])
+			}
+		case []interface{}:
+			for _, e := range x {
+				walk(e)
+			}
+		}
+	}
+	walk(map[string]interface{}(m))
+	if len(widest) < 2 {
+		return nil
+	}
+	ks := make([]string, 0, len(widest))
+	for k := range widest {
+		ks = append(ks, k)
+	}
+	sort.Strings(ks)
+	victim := ks[len(ks)/2]
+	if strings.HasPrefix(victim, "-") || victim == "#text" {
+		return nil
+	}
+	val := widest[victim]
+	delete(widest, victim)
+	widest[victim+"x"] = val
+	widest[ks[0]] = "changed"
+	c.C["probe.d1_after_update_checked"]++
+	fresh := mxj.Map(DeepCopy(map[string]interface{}(m)).(map[string]interface{}))
+	for _, e := range []struct {
+		n string
+		f func(x mxj.Map) ([]byte, error)
+	}{
+		{"Xml", func(x mxj.Map) ([]byte, error) { return x.Xml() }},
+		{"XmlIndent", func(x mxj.Map) ([]byte, error) { return x.XmlIndent(prefix, indent) }},
+		{"Json", func(x mxj.Map) ([]byte, error) { return x.Json() }},
+		{"StringIndent", func(x mxj.Map) ([]byte, error) { return []byte(x.StringIndent()), nil }},
+	} {
+		var a, b []byte
+		var ea, eb error
+		c.Eval()
+		if v := safely(c, e.n+" after in-place update", func() { a, ea = e.f(m); b, eb = e.f(fresh) }); v != nil {
+			return v
+		}
+		if !bytes.Equal(a, b) || (ea == nil) != (eb == nil) {
+			return &Violation{"C16.d1-stale-after-update/" + e.n, fmt.Sprintf("%s of a Map that was modified in place after earlier encodings differs from %s of an equal, freshly built Map:\n modified: %q\n fresh:    %q", e.n, e.n, clip(string(a), 400), clip(string(b), 400))}
+		}
 	}
 	return nil
 }
